@@ -40,6 +40,9 @@ U(data, partial, psel, delete, dsel, delem, remote, persist) ==
 Shapes(remote, persist) ==
     \* full update (also with items in descending order), empty list
     {U(d, "none", NoSel, "none", NoSel, {}, remote, persist) : d \in {<< >>} \cup One(AllKeys) \cup Two(AllKeys)}
+    \* not persisting, without filter, one item without identifiers ("build the data set of a full write"): goes through
+    \* the same merge rules as a partial update, i.e. is copied to every item
+    \cup (IF persist THEN {} ELSE {U(d, "none", NoSel, "none", NoSel, {}, remote, persist) : d \in One({NoKey})})
     \* partial update with identifiers
     \cup {U(d, "empty", NoSel, "none", NoSel, {}, remote, persist) : d \in {<< >>} \cup One(AllKeys) \cup (IF Rich THEN Two(AllKeys) ELSE {})}
     \* partial update without identifiers: copied to every item
